@@ -25,7 +25,7 @@ RULE = ('plan = history of 5-16 steps by 2-3 clients over Create / '
         'killed before its k-th file-changing libc call (k seeded). '
         'Non-trivial: at least one destroy followed by a create with a '
         'restart in between. Distinct = digest of the trace.')
-PROBES = ['destroy_then_create', 'destroy_newest_then_create',
+PROBES = ['disk_error_inside_request', 'destroy_then_create', 'destroy_newest_then_create',
           'restart_between_destroy_and_create', 'kill_restart',
           'kill_hit_inside_request', 'created_but_unacknowledged',
           'destroyed_but_unacknowledged', 'op_on_dead_id', 'all_destroyed']
@@ -170,9 +170,18 @@ def generate(rng, tier, index):
             st = creator(a)
         if st is None:
             continue
-        if r.random() < 0.22 and not st.get('dead'):
+        y = r.random()
+        if y < 0.22 and not st.get('dead'):
             st = {'kill': st, 'k': r.choice([0, 0, 0, 1, 2, 3, 5, 8, 13, 21, 26,
                                              29, 30, 31, 34, 40, 55, 80])}
+        elif y < 0.34 and not st.get('dead'):
+            # the disk refuses one file-system call of this request (or
+            # every call from there on): whatever the answer says must be
+            # what the store holds afterwards
+            st = dict(st)
+            st['disk'] = [r.choice([1, 2, 3, 5, 8, 13, 21, 26, 29, 30, 31,
+                                    34, 40]), r.choice([2, 3]),
+                          r.random() < 0.3]
         steps.append(st)
     return {'actors': actors, 'seed': r.randrange(1 << 30), 'steps': steps}
 
@@ -261,7 +270,15 @@ def execute(plan):
                     else acked['resp']['items']
             else:
                 rq = st
-                resp = W.request(copy.deepcopy(rq))
+                disk = st.get('disk')
+                if disk:
+                    sh.arm(disk[0], disk[1], sticky=disk[2])
+                resp = W.request(copy.deepcopy(dict(
+                    (k_, v_) for k_, v_ in rq.items() if k_ != 'disk')))
+                if disk:
+                    if sh.fired():
+                        probes['disk_error_inside_request'] += 1
+                    sh.reset()
                 items = [] if resp is None else resp.items
             W.clock.advance(1)
             after = model.store_view(W.db)
@@ -363,7 +380,8 @@ def execute(plan):
             'violations': viol, 'nontrivial': nontrivial, 'key': digest,
             'digest': digest,
             'faults': {'restart_clean': W.restarts,
-                       'crash': probes['kill_hit_inside_request']},
+                       'crash': probes['kill_hit_inside_request'],
+                       'enospc_eio': probes['disk_error_inside_request']},
             'probes': probes,
             'states': [kernel.digest_of(t[:2]) for t in trace],
             'sim_s': W.clock.covered(), 'steps': W.requests,
